@@ -104,6 +104,7 @@ func execC14entry(x *X) {
 			m := Op{K: op.S3, S: op.S2, I: op.I, S2: Pick(RNG(op.I, 0, 1), []string{"", "0", "-", "ZZZ", "1e999", "0%", "100%"})}
 			if dam, ok := c14mutate(base.Clone(), m); ok {
 				data = dam
+				x.faultClass = faultClassOf(base, m)
 			}
 		}
 		var docOnly []byte = data
@@ -260,6 +261,7 @@ func execC14entry(x *X) {
 				}
 			})
 		}
+		x.faultClass = ""
 		x.Step(i, "entry", op.K+":"+op.S, op.S3)
 		if len(x.R.Violations) >= 20 {
 			break
